@@ -245,12 +245,16 @@ def vrpcalls (toks : List String) : Option String := do
     | _ => none)
   pure s!"caps={",".intercalate ((Persist.vrpCalls calls).map optFrac)}"
 
+/-- `gen.keymap <key> <key> …` → the policy keys a warm start maps the checkpoint keys onto (`Persist.mapKey`) -/
+def keymap (toks : List String) : Option String :=
+  some s!"keys={",".intercalate (toks.map Persist.mapKey)}"
+
 def handlers : List (String × (List String → Option String)) :=
   [("gen.aff", aff), ("gen.tbl", tbl), ("gen.cvrp", cvrp), ("gen.opprize", opprize), ("gen.pctsp", pctsp),
    ("gen.cvrptw", cvrptw), ("gen.mtvrpcap", mtvrpcap), ("gen.mtvrpdem", mtvrpdem), ("gen.mtvrptw", mtvrptw), ("gen.mtvrptwgen", mtvrptwgen),
    ("gen.keep", keep), ("gen.atsp", atsp), ("gen.ops", ops), ("gen.fjspcol", fjspcol), ("gen.jsspcol", jsspcol),
    ("gen.mcpclamp", mcpclamp), ("gen.mcprow", mcprow), ("gen.fjspwrite", fjspwrite), ("gen.fjspread", fjspread),
    ("gen.jsspwrite", jsspwrite), ("gen.jsspread", jsspread), ("gen.loaddemand", loaddemand),
-   ("gen.loadrows", loadrows), ("gen.npzbatch", npzbatch), ("gen.vrpcalls", vrpcalls)]
+   ("gen.loadrows", loadrows), ("gen.npzbatch", npzbatch), ("gen.vrpcalls", vrpcalls), ("gen.keymap", keymap)]
 
 end Rl4co.Driver.Gen
